@@ -97,18 +97,18 @@ Print Assumptions C05_no_input_makes_the_compiler_panic.
 Require Import Calc.ExprSem Calc.ExprVM Calc.ExprCorrect Calc.ExprTop Calc.ExprAssign Calc.ExprSession
         Calc.StmtSem Calc.StmtCorrect Calc.StmtTop.
 
-Theorem C05_statement_runs_never_abort : forall t s s' v c m n G' res fuel,
-  wstmt t = true -> ExprCorrect.wfcs s -> idle v s c m ->
+Theorem C05_statement_runs_never_abort : forall Bf t s s' v c m n G' res fuel,
+  wstmt t = true -> ExprCorrect.wfcs s -> idle v s c m -> bcode Bf (load_code v s) ->
   ByteCode t s = CompOk s' ->
-  ssem n (wof v) t = Some (G', res) ->
+  ssem Bf n (wof v) t = Some (G', res) ->
   match snd (Run fuel (load_code v s') true) with
   | RAbort _ => False
   | RExit _ => False
   | _ => True
   end.
 Proof.
-  intros t s s' v c m n G' res fuel Hw Hwf Hid HB HM.
-  destruct (bytecode_run_stmt t s s' v c m n G' res Hw Hwf Hid HB HM) as [_ [k R]].
+  intros Bf t s s' v c m n G' res fuel Hw Hwf Hid Hbc HB HM.
+  destruct (bytecode_run_stmt Bf t s s' v c m n G' res Hw Hwf Hid Hbc HB HM) as [_ [_ [k R]]].
   destruct (R fuel) as [Rle Rgt].
   destruct (Nat.lt_ge_cases k fuel) as [Hlt|Hge].
   - specialize (Rgt Hlt). destruct res as [x|err].
